@@ -1105,7 +1105,7 @@ func (sp *safetyPass) bounds(st *State, in ssa.Instruction, base, index, lo, hi 
 		}
 		desc = bcan + "[" + l + ":" + h + "]"
 	}
-	if why, ok := boundsExceptions[sp.fn.String()+" "+stableKey(desc)]; ok {
+	if why, ok := boundsException(sp.fn.String() + " " + stableKey(desc)); ok {
 		sp.add("BOUNDS", kind, desc, in, Discharged, "table exception: "+why, st)
 		return
 	}
@@ -1125,7 +1125,7 @@ func (sp *safetyPass) bounds(st *State, in ssa.Instruction, base, index, lo, hi 
 			}
 			d2 = b2 + "[" + l + ":" + h + "]"
 		}
-		if why, ok := boundsExceptions[sp.fn.String()+" "+stableKey(d2)]; ok && d2 != desc {
+		if why, ok := boundsException(sp.fn.String() + " " + stableKey(d2)); ok && d2 != desc {
 			sp.add("BOUNDS", kind, desc, in, Discharged, "table exception: "+why, st)
 			return
 		}
@@ -1496,4 +1496,19 @@ func derefsParamUnguarded(fn *ssa.Function, i int, depth int) bool {
 		derefsParamMemo[k] = 1
 	}
 	return res
+}
+
+// boundsException looks a construct up in the exception table; `x[:n]` and
+// `x[0:n]` are the same construct.
+func boundsException(key string) (string, bool) {
+	if why, ok := boundsExceptions[key]; ok {
+		return why, true
+	}
+	norm := func(k string) string { return strings.ReplaceAll(k, "[:", "[0:") }
+	for k, why := range boundsExceptions {
+		if norm(k) == norm(key) {
+			return why, true
+		}
+	}
+	return "", false
 }
